@@ -39,10 +39,19 @@ pub enum Cycle {
 	HandlerUnsubscribe,
 	HandlerLag,
 	HandlerTwice,
+	/// the server answers the call with an error whose id is null
+	CallNullIdAnswer,
+	/// `subscribe_to_method` whose future is dropped after k polls
+	HandlerCancelled(u32),
+	/// `subscribe` whose future is dropped after k polls (the server accepts it nevertheless)
+	SubCancelled(u32),
 }
 
 fn draw_cycle() -> Cycle {
-	match rt::draw("cycle", 20) {
+	match rt::draw("cycle", 24) {
+		20 => Cycle::CallNullIdAnswer,
+		21 => Cycle::HandlerCancelled(rt::draw_range("cancel_after", 1, 4)),
+		22 | 23 => Cycle::SubCancelled(rt::draw_range("cancel_after", 1, 8)),
 		0 | 1 => Cycle::Call,
 		2 => Cycle::CallErr,
 		3 => Cycle::Batch(rt::draw_range("bn", 1, 3)),
@@ -80,6 +89,7 @@ pub async fn scenario() {
 	let n_tasks = rt::draw_range("n_tasks", 1, 3);
 	let buf = *rt::pick("buf", &[2usize, 1, 4]);
 	let id_str = rt::chance("id_kind", 1, 3);
+	let max_conc = *rt::pick("max_conc", &[256usize, 1, 2]);
 	let repeat = if rt::param("long").is_some() { 40 } else { 1 };
 	let mut plans: Vec<Vec<Cycle>> = Vec::new();
 	for _ in 0..n_tasks {
@@ -91,20 +101,22 @@ pub async fn scenario() {
 		}
 		plans.push(v);
 	}
-	rt::event("plan", format!("tasks={plans:?} buf={buf} id_str={id_str}"));
+	rt::event("plan", format!("tasks={plans:?} buf={buf} id_str={id_str} max_conc={max_conc}"));
 	let (wire, tx, rx) = Wire::new();
 	let client = Arc::new(
 		Client::builder()
 			.max_buffer_capacity_per_subscription(buf)
+			.max_concurrent_requests(max_conc)
 			.id_format(if id_str { IdKind::String } else { IdKind::Number })
 			.request_timeout(Duration::from_secs(60))
 			.build_with_tokio(tx, rx),
 	);
 	let finished_ids: Arc<Mutex<(Vec<Value>, Vec<Value>)>> = Arc::default(); // (request ids answered, sub ids ended)
+	let all_sub_ids: Arc<Mutex<Vec<Value>>> = Arc::default();
 
 	// ---------------- peer: acknowledges everything ----------------
 	let peer = {
-		let (wire, finished_ids) = (wire.clone(), finished_ids.clone());
+		let (wire, finished_ids, all_sub_ids) = (wire.clone(), finished_ids.clone(), all_sub_ids.clone());
 		rt::spawn("peer", async move {
 			let mut pending: Vec<(Value, String, Value)> = Vec::new();
 			let mut next_sub = 800u64;
@@ -160,6 +172,7 @@ pub async fn scenario() {
 										next_sub += 1;
 										let sid = if next_sub % 2 == 0 { json!(next_sub) } else { json!(format!("s{next_sub}")) };
 										live.push(sid.clone());
+										all_sub_ids.lock().unwrap().push(sid.clone());
 										wire.push_text(ok_response(&id, &sid));
 										match mode.as_str() {
 											"close" => {
@@ -204,6 +217,10 @@ pub async fn scenario() {
 								}
 								finished_ids.lock().unwrap().0.push(id);
 							}
+							"nullid" => {
+								wire.push_text(err_response(&Value::Null, -32007, "request too big", None));
+								finished_ids.lock().unwrap().0.push(id);
+							}
 							"fail" => {
 								wire.push_text(err_response(&id, -32001, "nope", Some(&json!([1, 2]))));
 								finished_ids.lock().unwrap().0.push(id);
@@ -245,6 +262,29 @@ pub async fn scenario() {
 					}
 					Cycle::Notif => {
 						let _ = client.notification("note", rpc_params![n]).await;
+					}
+					Cycle::CallNullIdAnswer => {
+						let _: Result<Value, Error> = client.request("nullid", rpc_params![n]).await;
+					}
+					Cycle::HandlerCancelled(k) => {
+						let _g = handler_lock.lock().await;
+						let fut = client.subscribe_to_method::<Value>("mn");
+						tokio::pin!(fut);
+						tokio::select! {
+							biased;
+							r = &mut fut => { drop(r); }
+							_ = rt::yield_n(k) => { rt::probe("handler_cancelled"); }
+						}
+						tokio::time::sleep(Duration::from_millis(50)).await;
+					}
+					Cycle::SubCancelled(k) => {
+						let fut = client.subscribe::<Value, _>("sub", rpc_params![n, "ok"], "unsub");
+						tokio::pin!(fut);
+						tokio::select! {
+							biased;
+							r = &mut fut => { drop(r); }
+							_ = rt::yield_n(k) => { rt::probe("subscribe_cancelled"); }
+						}
 					}
 					Cycle::SubUnsubscribe | Cycle::SubDrop | Cycle::SubServerClose | Cycle::SubLagThenDrop | Cycle::SubLagThenUnsubscribe | Cycle::SubRefused | Cycle::SubMalformed | Cycle::SubDuplicateId => {
 						let r: Result<Subscription<Value>, Error> = client.subscribe("sub", rpc_params![n, mode_of(c)], "unsub").await;
@@ -321,6 +361,17 @@ pub async fn scenario() {
 	}
 	// every acknowledgement has been delivered and processed by now?
 	rt::quiesce().await;
+	// one more notification for every subscription the server ever accepted and for the handler method: whatever
+	// the application dropped without the background task noticing (request queue full, cancelled future) is
+	// noticed now, and the resulting unsubscribe calls are acknowledged
+	if client.is_connected() {
+		let ids = all_sub_ids.lock().unwrap().clone();
+		for sid in ids {
+			wire.push_text(sub_notif("n", &sid, &json!(7)));
+		}
+		wire.push_text(method_notif("mn", Some(&json!(7))));
+		rt::quiesce().await;
+	}
 	let connected = client.is_connected();
 	let tables = verif::client_tables();
 	rt::event("tables", format!("{tables:?} connected={connected}"));
